@@ -438,3 +438,46 @@ def facts_lookup_like(facts):
                 changed = True
     facts._lookup_like = found
     return found
+
+
+def index_encoders(facts):
+    """{function: (field argument, table argument, boxed)}: `func_index`
+    itself and the in-file wrappers that forward two of their parameters to
+    it (boxed: the wrapper returns the index as a Python int)"""
+    from .cexpr import callee, strip
+    def compute():
+        out = {"func_index": (0, 1, False)}
+        for w in facts.defined_functions():
+            if w == "func_index":
+                continue
+            fn = facts.func(w)
+            calls = [c for c in fn.walk() if c.kind == "CallExpr"
+                     and callee(c) == "func_index"]
+            if len(calls) != 1 or sum(1 for _ in fn.walk()) > 60:
+                continue
+            ps = [q.name for q in facts.params(w)]
+            a = [strip(x) for x in calls[0].ch[1:3]]
+            if len(a) == 2 and all(x is not None and x.kind == "DeclRefExpr"
+                                   and x.ref in ps for x in a):
+                boxed = any(c.kind == "CallExpr" and callee(c) in (
+                    "PyLong_FromLong", "PyLong_FromSsize_t")
+                    and any(y is calls[0] for y in c.walk())
+                    for c in fn.walk())
+                out[w] = (ps.index(a[0].ref), ps.index(a[1].ref), boxed)
+        return out
+    if not hasattr(facts, "_index_encoders"):
+        facts._index_encoders = compute()
+    return facts._index_encoders
+
+
+def func_index_calls(facts, node):
+    """(call, field expression, table expression, boxed) for every call in
+    ``node`` that encodes a function pointer as its index in a table"""
+    from .cexpr import callee, strip
+    enc = index_encoders(facts)
+    for c in node.walk():
+        if c.kind == "CallExpr" and callee(c) in enc:
+            i, j, boxed = enc[callee(c)]
+            if callee(c) != "func_index" or True:
+                if len(c.ch) > max(i, j) + 1:
+                    yield c, strip(c.ch[1 + i]), strip(c.ch[1 + j]), boxed
